@@ -155,7 +155,7 @@ def c16_mutants():
     known_lines = ["%d recorded single-edit mutant inputs still panic with `%s` (findings/c16_mutant_baseline.json lists each input)" % (n, m) for m, n in sorted(known_by_msg.items())]
     rep = {"kind": "native mutation corpus (testing, not proof)", "seeds": head.get("seeds"), "inputs": head["cases"], "panics": head["failures"],
            "panics_listed_in_baseline": sum(known_by_msg.values()), "new_panics": head["failures"] - sum(known_by_msg.values()),
-           "bound": "24 hand-written inputs + every recorded input; all mutants with one run of 1..3 token trees deleted inside an attribute (any depth), one attribute deleted, or one instruction name replaced by another of the 24"}
+           "bound": "24 hand-written inputs + every recorded input; all mutants with one run of 1..3 token trees deleted inside an attribute (any depth), one attribute deleted, one instruction name replaced by another of the 24, one literal replaced by a literal of another shape, or one argument identifier replaced by an integer literal"}
     return viol, rep, known_lines
 
 
@@ -240,7 +240,7 @@ STRUCT = {
             "enums with a named-payload, a tuple-payload and a unit variant; named payloads: all sequences of length 1..3 over 6 member forms; tuple payloads: sequences over 4 forms; with and without variant renames: 492 enums x 4 impls, whole fn bodies compared with an oracle written from the statement"),
     "c04": ("validate_struct_attrs (uniqueness per kind / fallibility / counterpart), get_data_type_attrs, data_type_impl end to end",
             "accepted input => the impl headers are exactly the documented ones for its instructions, pairwise distinct (a (kind, fallibility, counterpart) requested twice must not be accepted), `type Error` is the declared error type, and the set does not depend on the order of the instructions",
-            "24 instructions x 4 counterpart forms x 2 error types x 3 item shapes singly; all 24 x 24 ordered pairs x {same counterpart, different counterparts, different generic arguments} x both orders: 18,156 inputs against the README table re-typed in the test"),
+            "24 instructions x 6 counterpart forms (plain, qualified, generic, qualified + generic, bare tuple) x 3 error types x 3 item shapes singly; all 24 x 24 ordered pairs x {same counterpart, different counterparts, different generic arguments, same name in different modules} x both orders: 36,486 inputs against the README table re-typed in the test"),
     "c07": ("whole bodies (struct_init_block(_inner), struct_post_init, main_code_block) across the twelve impls of one input",
             "by-reference body = owned body with borrows; fallible body = Ok(..) of the infallible one with `?` on the poured parent; into_existing assigns to every field what into builds, and pours the same parents",
             "all member sequences of length 1..3 over 9 member forms (plain, renamed, expression, both, from/into pair, ghost, child, nested child, bare parent) x with / without struct-level ghosts = 1,638 structs, each with map + try_map + into_existing + try_into_existing (12 impls)"),
